@@ -17,7 +17,7 @@ RULE = ('(wertheim-thiele) one-component hard spheres, PY with and without the h
         'Gauss-Legendre quadrature, S(k_min) against (1-eta)^4/(1+2eta)^2, c(r) at fixed r in {0.2,0.4,0.8,1.52} (grid points of every member) (on a copy) -- each '
         'with (i) error <= C(eta) dr, (ii) halving ratio in [0.4,0.6], (iii) Richardson value within C2(eta) dr^2. (dilute) every '
         'shipped potential with generated parameters, kT in [0.7,3], closure PY / HNC / MSA+flag, density family rho0, rho0/10, rho0/100 '
-        '(rho0 in [1e-3,1e-2]) on grids dr and dr/2: |g - g_ref| <= K rho pointwise with g_ref = exp(-u/kT) (PY,HNC) or 1-u/kT outside '
+        '(rho0 in [1e-3,1e-2]) plus one really vanishing density in [1e-12,1e-7] on grids dr and dr/2: |g - g_ref| <= K rho pointwise with g_ref = exp(-u/kT) (PY,HNC) or 1-u/kT outside '
         'the core (MSA), deviation linear in rho (ratio per decade in [5,20]), second_virial against -2 pi int (g_ref-1) r sin(kr)/k dr by '
         'adaptive quadrature (same 3-point k->0 extrapolation applied to the exact transform; also unextrapolated at k_min) within K1 rho + K2 dr '
         'with Richardson limit. Non-trivial = all family members converged and eta >= 0.05 '
@@ -145,8 +145,9 @@ def dilute_spec():
     def pot(kT):
         return S._potential(kT).map(lambda d: [d[0], {k: v for k, v in d[1].items()}])
     return st.tuples(specs.logfloat(-0.15, 0.48, 3), specs.logfloat(-3, -2, 3), st.sampled_from(['PY', 'HNC', 'MSA', 'PY']), st.booleans(),
-                     st.sampled_from([0.05, 0.04, 0.1])).flatmap(
-        lambda t: pot(t[0]).map(lambda p: {'kT': t[0], 'rho0': t[1], 'closure': t[2], 'flag': True if t[2] == 'MSA' else t[3], 'dr': t[4], 'potential': p}))
+                     st.sampled_from([0.05, 0.04, 0.1]), specs.logfloat(-12, -7, 3)).flatmap(
+        lambda t: pot(t[0]).map(lambda p: {'kT': t[0], 'rho0': t[1], 'closure': t[2], 'flag': True if t[2] == 'MSA' else t[3], 'dr': t[4], 'potential': p,
+                                          'rho_tiny': t[5]}))
 
 
 def g_reference(spec, r):
@@ -208,7 +209,7 @@ class Dilute(Sub):
         devs, b2 = {}, {}
         for dr in (spec['dr'], spec['dr'] / 2):
             L = int(round(rmax / dr))
-            for m, rho in enumerate((spec['rho0'], spec['rho0'] / 10, spec['rho0'] / 100)):
+            for m, rho in enumerate((spec['rho0'], spec['rho0'] / 10, spec['rho0'] / 100, spec.get('rho_tiny', 1e-9))):
                 if dr != spec['dr'] and m != 2:
                     continue
                 sysspec = {'types': ['A'], 'kT': spec['kT'], 'domain': {'length': L, 'dr': rmax / L}, 'dia': [1.0], 'rho': [rho], 'method': 'krylov',
@@ -239,7 +240,7 @@ class Dilute(Sub):
         M = float(np.max(np.abs(f))) * float(4 * math.pi * np.sum(np.abs(f) * r * r) * (r[1] - r[0]))
         K = 1.0 * M * max(1.0, float(np.max(gref[judged]))) + 1e-3
         out.nontrivial = bool(np.any(np.abs(f[r > 1.0 + 1e-6]) > 1e-6)) or name == 'HardSphere'
-        for m in (0, 1, 2):
+        for m in (0, 1, 2, 3):        # member 3: a really vanishing density (1e-12..1e-7)
             dev, rho = devs[m][0], devs[m][1]
             if dev > K * rho + 1e-9:
                 i = int(np.argmax(np.where(devs[m][5], np.abs(devs[m][3] - devs[m][4]), 0.0)))
